@@ -278,12 +278,18 @@ class Ctx:
         self.extra: dict = {}
         self.proof: dict = {}
         self._known = load_known().get("known", [])
+        self.escalated = False
+        self.anchor_info: dict = {}
 
     @property
     def quick(self) -> bool:
         return self.tier == "quick"
 
     def pick(self, quick: int, thorough: int) -> int:
+        if self.quick and self.escalated:
+            # a function this property's model transcribes was edited since the model was pinned
+            # (harness/anchors.py): spend up to 3x the quick budget on correspondence / search
+            return max(quick, min(thorough, 3 * quick))
         return quick if self.quick else thorough
 
     # ---- bookkeeping
@@ -433,6 +439,7 @@ def write_evidence(ctx: Ctx, violations: int, assumptions: list[str]) -> None:
         "exhaustive_scopes": ctx.exhaustive_scopes,
         "known_findings_hit": ctx.known_hits,
         "notes": ctx.notes,
+        "anchored_code": ctx.anchor_info,
     }
     cov.update(ctx.extra)
     ev = {
@@ -539,6 +546,18 @@ def main(argv: list[str]) -> int:
         if a.no_proof and not os.environ.get("IRVERIF_OUT_DIR"):
             print("--no-proof is a development aid: set IRVERIF_OUT_DIR so that the real evidence is not overwritten", file=sys.stderr)
             return 2
+        try:
+            from harness import anchors
+
+            n_anch, changed = anchors.changed_since_pin(prop)
+            ctx.anchor_info = {"functions": n_anch, "changed_since_pin": changed,
+                               "source_root": anchors.src_root()}
+            if changed and not os.environ.get("IRVERIF_NO_ESCALATE"):
+                ctx.escalated = True
+                ctx.notes.append("anchored code differs from the pinned fingerprint: quick budgets x3 (" + ", ".join(changed[:8]) + ")")
+                print(f"NOTE property={prop} anchored code changed since the model was pinned: {', '.join(changed[:8])}")
+        except Exception as e:  # never decides anything; never fails a run
+            ctx.anchor_info = {"error": repr(e)}
         broken = [] if a.no_proof else proof_tier(ctx, list(mod.THEOREMS))
         if a.no_proof:
             ctx.proof = {"obligations": len(mod.THEOREMS), "discharged": 0, "checker_cmd": "(skipped)"}
